@@ -26,7 +26,8 @@ ASSUMPTIONS = ["byte values come from one fixed pseudo-random pool containing \\
 
 SIZES = (0, 1, 4095, 4096, 4097, 65537)
 ERR_SIZES = (0, 1, 4097)
-DECOR = (([], {}), ([1, "two", 2.5, False], {"k": "v", "z": 0, "a": True}), (["only-args"], {}), ([], {"only": "options"}))
+DECOR = (([], {}), ([1, "two", 2.5, False], {"k": "v", "z": 0, "a": True}), (["only-args"], {}), ([], {"only": "options"}),
+         ([""], {"empty": ""}), ([0], {"zero": 0}))
 # a second experiment in the same run whose args/options are element-wise == to DECOR[1]'s but of other primitive types
 TWIN = ([1.0, "two", 2.5, 0], {"k": "v", "z": False, "a": 1})
 
